@@ -792,6 +792,20 @@ class NPProxy:
     def isscalar(self, x):
         return _is_sym(x) or np.isscalar(x)
 
+    def isclose(self, a, b, rtol=1e-05, atol=1e-08, **kw):
+        """numpy.isclose: |a - b| <= atol + rtol * |b| (exact reals)"""
+        if not (has_sym(a) or has_sym(b)):
+            return np.isclose(a, b, rtol=rtol, atol=atol, **kw)
+
+        def one(x, y):
+            x, y = core.lift(x), core.lift(y)
+            ad = z3.If(x - y >= 0, x - y, y - x)
+            ay = z3.If(y >= 0, y, -y)
+            return SymB(ad <= core.RV(atol) + core.RV(rtol) * ay)
+        if isinstance(a, np.ndarray) or isinstance(b, np.ndarray):
+            return _map2(one, oarr(a), oarr(b))
+        return one(a, b)
+
     def copy(self, a, *args, **kw):
         return a.copy() if isinstance(a, SymArr) else np.copy(a, *args, **kw)
 
